@@ -190,6 +190,9 @@ func vpAssert(fr *frame, a []value) value {
 			panic(pathEnd{"assertion failed"})
 		}
 	case *Term:
+		if m.deferAssert(id, pos, c) { // intr_defer.go: vpConfig("defer-asserts",1)
+			return nil
+		}
 		nc := m.ts.Not(c)
 		r := m.assertCheck(nc) // solver_oneshot.go: incremental check, one-shot retry on unknown
 		switch r {
